@@ -28,25 +28,46 @@ Section C11.
   Variable dec_binds : blob -> option (list (N * N)).
   Variable enc_res : list (N * N) -> blob.
   Variable dec_res : blob -> option (list (N * N)).
+  Variable enc_tz : N -> blob.
+  Variable dec_tz : blob -> option N.
+  Variable enc_tts : N * N -> blob.
+  Variable dec_tts : blob -> option (N * N).
+  Variable enc_icd : list (N * N) -> blob.
+  Variable dec_icd : blob -> option (list (N * N)).
+  Variable enc_ota : list (N * N) -> blob.
+  Variable dec_ota : blob -> option (list (N * N)).
+  Variable enc_scenes : list (N * N) -> blob.
+  Variable dec_scenes : blob -> option (list (N * N)).
   Hypothesis rt_fab : forall i f, dec_fab (enc_fab i f) = Some (i, f).
   Hypothesis rt_basic : forall v, dec_basic (enc_basic v) = Some v.
   Hypothesis rt_nets : forall v, dec_nets (enc_nets v) = Some v.
   Hypothesis rt_labels : forall v, dec_labels (enc_labels v) = Some v.
   Hypothesis rt_binds : forall v, dec_binds (enc_binds v) = Some v.
   Hypothesis rt_res : forall v, dec_res (enc_res v) = Some v.
+  Hypothesis rt_tz : forall v, dec_tz (enc_tz v) = Some v.
+  Hypothesis rt_tts : forall v, dec_tts (enc_tts v) = Some v.
+  Hypothesis rt_icd : forall v, dec_icd (enc_icd v) = Some v.
+  Hypothesis rt_ota : forall v, dec_ota (enc_ota v) = Some v.
+  Hypothesis rt_scenes : forall v, dec_scenes (enc_scenes v) = Some v.
 
   Notation stepf := (step blob enc_fab dec_fab enc_basic dec_basic enc_nets dec_nets enc_labels dec_labels
-                          enc_binds dec_binds enc_res dec_res).
+                          enc_binds dec_binds enc_res dec_res enc_tz dec_tz enc_tts dec_tts
+                          enc_icd dec_icd enc_ota dec_ota enc_scenes dec_scenes).
   Notation step := (stepf true).
   Notation run := (run blob enc_fab dec_fab enc_basic dec_basic enc_nets dec_nets enc_labels dec_labels
-                       enc_binds dec_binds enc_res dec_res true).
-  Notation startup := (startup blob dec_fab dec_basic dec_nets dec_labels dec_binds enc_res dec_res).
-  Notation boot := (boot blob dec_fab dec_basic dec_nets dec_labels dec_binds enc_res dec_res).
-  Notation Inv := (Inv blob enc_fab enc_basic enc_nets enc_labels enc_binds enc_res).
+                       enc_binds dec_binds enc_res dec_res enc_tz dec_tz enc_tts dec_tts
+                          enc_icd dec_icd enc_ota dec_ota enc_scenes dec_scenes true).
+  Notation startup := (startup blob dec_fab dec_basic dec_nets dec_labels dec_binds enc_res dec_res
+                               dec_tz dec_tts dec_icd dec_ota dec_scenes).
+  Notation boot := (boot blob dec_fab dec_basic dec_nets dec_labels dec_binds enc_res dec_res
+                         dec_tz dec_tts dec_icd dec_ota dec_scenes).
+  Notation Inv := (Inv blob enc_fab enc_basic enc_nets enc_labels enc_binds enc_res enc_tz enc_tts enc_icd enc_ota enc_scenes).
   Notation state_at := (state_at blob enc_fab dec_fab enc_basic dec_basic enc_nets dec_nets enc_labels dec_labels
-                                 enc_binds dec_binds enc_res dec_res).
+                                 enc_binds dec_binds enc_res dec_res enc_tz dec_tz enc_tts dec_tts
+                          enc_icd dec_icd enc_ota dec_ota enc_scenes dec_scenes).
   Notation cut_inside := (cut_inside blob enc_fab dec_fab enc_basic dec_basic enc_nets dec_nets enc_labels dec_labels
-                                     enc_binds dec_binds enc_res dec_res).
+                                     enc_binds dec_binds enc_res dec_res enc_tz dec_tz enc_tts dec_tts
+                          enc_icd dec_icd enc_ota dec_ota enc_scenes dec_scenes).
   Notation full_log := (full_log blob).
   Notation committed_view := (committed_view blob).
 
@@ -109,7 +130,9 @@ Section C11.
       and the five singleton keys of the structures modelled) ... *)
   Theorem C11_writes_only_writable_keys : forall (st : state blob) (o : op) k b, Inv st ->
     In (KStore k b) (kvlog blob (snd (step st o))) -> In k writable_keys.
-  Proof. intros; eapply writes_only_writable_keys; eassumption. Qed.
+  Proof.
+    intros st o k b HI H. eapply writes_only_writable_keys in H; [exact H|..]; first [exact HI|eassumption].
+  Qed.
 
   (** ... and after a factory reset every one of those keys is absent *)
   Theorem C11_factory_reset_empty : forall (st : state blob) k, In k writable_keys ->
@@ -147,13 +170,16 @@ Print Assumptions C11_bad_cache_boots.
 (** ** The hypotheses are satisfiable, the classes set aside are inhabited *)
 
 Notation i_step := (c_step true).
-Notation i_Inv := (Inv cblob BFab BBasic BNets BLabels BBinds BRes).
+Notation i_Inv := (Inv cblob BFab BBasic BNets BLabels BBinds BRes BTz BTts BIcd BOta BScenes).
 
 (** the codec instance of Model/PersistSpec.v reads back what it wrote *)
 Example C11_codecs_satisfiable :
   (forall i f, c_dec_fab (BFab i f) = Some (i, f)) /\ (forall v, c_dec_basic (BBasic v) = Some v) /\
   (forall v, c_dec_nets (BNets v) = Some v) /\ (forall v, c_dec_labels (BLabels v) = Some v) /\
-  (forall v, c_dec_binds (BBinds v) = Some v) /\ (forall v, c_dec_res (BRes v) = Some v).
+  (forall v, c_dec_binds (BBinds v) = Some v) /\ (forall v, c_dec_res (BRes v) = Some v) /\
+  (forall v, c_dec_tz (BTz v) = Some v) /\ (forall v, c_dec_tts (BTts v) = Some v) /\
+  (forall v, c_dec_icd (BIcd v) = Some v) /\ (forall v, c_dec_ota (BOta v) = Some v) /\
+  (forall v, c_dec_scenes (BScenes v) = Some v).
 Proof. repeat split. Qed.
 
 (** the initial states of the harness satisfy the invariant *)
@@ -171,6 +197,11 @@ Proof.
   - left. split; reflexivity.
   - left. split; reflexivity.
   - left. reflexivity.
+  - left. split; reflexivity.
+  - reflexivity.
+  - left. split; reflexivity.
+  - left. split; reflexivity.
+  - left. split; reflexivity.
   - destruct pase; cbn; intros pf H; congruence.
   (* two commissioned fabrics *)
   - cbn. repeat constructor; cbn; intuition congruence.
@@ -190,13 +221,20 @@ Proof.
   - left. split; reflexivity.
   - left. split; reflexivity.
   - left. reflexivity.
+  - left. split; reflexivity.
+  - reflexivity.
+  - left. split; reflexivity.
+  - left. split; reflexivity.
+  - left. split; reflexivity.
   - destruct pase; cbn; intros pf H; congruence.
 Qed.
 
 Definition c_run (fx : bool) : c_state -> list op -> c_state * list (list (ev cblob)) :=
-  run cblob BFab c_dec_fab BBasic c_dec_basic BNets c_dec_nets BLabels c_dec_labels BBinds c_dec_binds BRes c_dec_res fx.
+  run cblob BFab c_dec_fab BBasic c_dec_basic BNets c_dec_nets BLabels c_dec_labels BBinds c_dec_binds BRes c_dec_res
+      BTz c_dec_tz BTts c_dec_tts BIcd c_dec_icd BOta c_dec_ota BScenes c_dec_scenes fx.
 Definition c_boot : kv cblob -> option ram :=
-  boot cblob c_dec_fab c_dec_basic c_dec_nets c_dec_labels c_dec_binds BRes c_dec_res.
+  boot cblob c_dec_fab c_dec_basic c_dec_nets c_dec_labels c_dec_binds BRes c_dec_res
+       c_dec_tz c_dec_tts c_dec_icd c_dec_ota c_dec_scenes.
 Definition fab_acl (r : option ram) (i : N) : option N :=
   match r with Some r => option_map f_acl (aget (r_fabs r) i) | None => None end.
 Definition fab_label (r : option ram) (i : N) : option N :=
@@ -246,14 +284,11 @@ Theorem C11_uncommitted_flushed_witness :
 Proof. vm_compute. repeat split. Qed.
 Print Assumptions C11_uncommitted_flushed_witness.
 
-(** known finding factory-reset-leftover: of the keys of rs-matter's own layout, the two resets
-    leave exactly these behind: 263 / 264 belong to the Scenes and OTA handlers (which remove them
-    when they are part of the data model), 265 / 266 / 268 (ICD registrations, ICD check-in counter,
-    time zone) are written by rs-matter handlers and removed by nobody, and the subscription slots
-    beyond the size of this build's table *)
+(** (after the repair of the ICD and time zone handlers) of the keys of rs-matter's own layout the
+    two factory resets - with every persisting handler part of the data model - leave behind nothing
+    but the subscription slots beyond the size of this build's subscription table *)
 Theorem C11_reset_leftover_witness :
-  filter (fun k => negb (existsb (N.eqb k) reset_keys)) layout_keys =
-  [263; 264; 265; 266; 268] ++ nrange 2063 2033.
+  filter (fun k => negb (existsb (N.eqb k) reset_keys)) layout_keys = nrange 2063 2033.
 Proof. vm_compute. reflexivity. Qed.
 Print Assumptions C11_reset_leftover_witness.
 
